@@ -190,8 +190,9 @@ type walRun struct {
 	heldVals    []heldVal
 	acked       map[uint64]string // entries acknowledged and not covered by a later DeleteRange call
 	// per-open true totals for C20
-	tot map[string]uint64
-	out []string
+	tot    map[string]uint64
+	encLen map[uint64]int // index -> length of the encoding an acknowledged StoreLogs wrote
+	out    []string
 }
 
 func walErrKind(err error) string {
@@ -631,6 +632,10 @@ func (r *walRun) run() string {
 					var buf bytes.Buffer
 					(&wal.BinaryCodec{}).Encode(l, &buf)
 					r.tot["log_entry_bytes_written"] += uint64(buf.Len())
+					if r.encLen == nil {
+						r.encLen = map[uint64]int{}
+					}
+					r.encLen[l.Index] = buf.Len()
 				}
 			} else {
 				if valid && k > 0 && !faultArmed && !r.everFaulted && kind != "closed" && kind != "toobig" && encodable(logs) {
@@ -724,9 +729,15 @@ func (r *walRun) run() string {
 			} else {
 				s := logFields(&lg, true)
 				emit("ok:" + strings.ReplaceAll(s, " ", ","))
-				var buf bytes.Buffer
-				(&wal.BinaryCodec{}).Encode(&lg, &buf)
-				r.tot["log_entry_bytes_read"] += uint64(buf.Len())
+				// bytes read = length of the stored encoding (re-encoding the decoded entry can be
+				// shorter: time.Time's binary form loses a negative sub-minute zone offset)
+				if n, ok := r.encLen[idx]; ok {
+					r.tot["log_entry_bytes_read"] += uint64(n)
+				} else {
+					var buf bytes.Buffer
+					(&wal.BinaryCodec{}).Encode(&lg, &buf)
+					r.tot["log_entry_bytes_read"] += uint64(buf.Len())
+				}
 				s = oracleFields(&lg)
 				if want, ok := nom.ents[idx]; r.everFaulted {
 				} else if !ok {
